@@ -41,7 +41,7 @@ def classify(viol_key, findings):
     for e in findings:
         if e.get('status') != 'known':
             continue
-        if e.get('key') == viol_key:
+        if e.get('key') == viol_key or viol_key in (e.get('keys') or []):
             return e
     return None
 
